@@ -354,13 +354,16 @@ def struct_problems(c):
 REJECT_TRIGS = {"inst_no_viewref", "viewref_no_cellref"}
 
 
-def c05_eval_text(work, drv, text, expect=None, trigger=None, corr_only=False):
+def c05_eval_text(work, drv, text, expect=None, trigger=None, corr_only=False, use_model=True):
     """Run one text through implementation and model.
     Returns dict(corr=None|(impl, model), spec=None|(signature, detail), impl_canon, tags)"""
     res = {"corr": None, "spec": None, "tags": []}
     r = impl_parse_text(work, text)
-    m = drv.ask({"fn": "parse", "text": text})
-    if m.get("err") == "unsupported":
+    m = drv.ask({"fn": "parse", "text": text}) if use_model else {"err": "unsupported"}
+    if not use_model:
+        res["tags"].append("model-skipped-for-size")
+        m = None
+    elif m.get("err") == "unsupported":
         res["tags"].append("model-unsupported")
         m = None
     if r[0] == "ok":
@@ -550,6 +553,157 @@ def c05_run_text(sr, work, drv, inp):
                          signature=(SIG[inp["trigger"]] if inp.get("trigger") else None))
     if res["spec"]:
         sr.spec_failure(res["spec"][0], inp, res["spec"][1])
+
+
+# ------------------------------------------------------------------------------------------------
+# LONG texts (tens to hundreds of kB): the reader works on blocks of 32768 characters; these inputs put strings with blanks /
+# parentheses, identifiers, numbers and runs of parentheses across the block boundaries
+# ------------------------------------------------------------------------------------------------
+def impl_tokens(text):
+    """the implementation's tokenizer on a text -> list of tokens"""
+    from spydrnet.parsers.edif.tokenizer import EdifTokenizer
+    try:
+        return list(EdifTokenizer.from_string(text).generate_tokens())
+    except RecursionError:
+        raise
+    except Exception as e:  # noqa
+        return ["<tokenizer raised %s>" % exc_family(e)]
+
+
+def first_token_diff(a, b):
+    k = next((i for i, (x, y) in enumerate(zip(a, b)) if x != y), min(len(a), len(b)))
+    return k, a[max(0, k - 4):k + 4], b[max(0, k - 4):k + 4]
+
+
+LONG_SIZES = (110, 190, 370, 800)        # instances: about 40, 70, 140, 300 kB of text
+
+
+def long05_inputs(seed, tier):
+    """the long inputs of one run: every size twice, the padding chosen so that a block boundary falls inside / next to a
+    token of a chosen kind (string, identifier, number, run of parentheses)"""
+    rng = random.Random(stable_hash([seed, "long05"]))
+    out = []
+    kinds = ["s", "s", "i", "n", "p"]
+    rng.shuffle(kinds)
+    reps = 2 if tier == "quick" else 6
+    for si, n in enumerate(LONG_SIZES):
+        nb = max(1, (n * 380) // 32768)
+        for v in range(reps):
+            out.append({"kind": "long", "n": n, "seed": rng.randrange(1 << 20), "j": rng.randint(1, nb), "tok": kinds[(si * reps + v) % len(kinds)],
+                        "where": rng.choice("se"), "delta": rng.choice([-2, -1, 0, 1, 2, 3, 5])})
+    return out
+
+
+def c05_run_long(sr, work, drv, inp, model_limit=350_000):
+    d, text, toks, hit = G.long_text(inp["n"], inp["seed"], inp["j"], inp["tok"], inp["where"], inp["delta"])
+    sr.case(stable_hash(inp), True)
+    sr.dist("c05.long-text")
+    sr.dist("c05.long-text.kB=%d" % (10 * (len(text) // 10_000)))
+    sr.dist("c05.long-text.block-boundary-%s" % ({"s": "in-string", "i": "in-identifier", "n": "in-number", "p": "at-parenthesis"}[inp["tok"]]
+                                                if hit else "unplaced"))
+    lt = drv.ask({"fn": "lex", "text": text})
+    if lt != toks:
+        k, a, b = first_token_diff(toks, lt)
+        sr.corr_mismatch("lexE(text) = tokens the independent writer laid out (long text)", inp, a, b)
+    it = impl_tokens(text)
+    if it != toks:
+        k, a, b = first_token_diff(toks, it)
+        sr.spec_failure("parse.tokens.long_text", inp, "token %d (about character %d): written %r, tokenizer %r" % (
+            k, len(" ".join(toks[:k])), a, b))
+        return False
+    res = c05_eval_text(work, drv, text, G.denote(d), None, use_model=(len(text) <= model_limit))
+    for t in res["tags"]:
+        sr.dist("c05." + t)
+    if res["corr"]:
+        sr.corr_mismatch("reader: canon(sdn.parse(text)) = ofSExp(readS(lexE text)) (long text)", inp, res["corr"][0], res["corr"][1])
+    if res["spec"]:
+        sr.spec_failure(res["spec"][0], inp, res["spec"][1])
+        return False
+    return True
+
+
+def build_long03(n, seed):
+    """API-built chain of n placed buffers; names and string properties carry blanks and parentheses and make up most of the
+    written text"""
+    sdn = _sdn()
+    rng = random.Random(seed)
+    nl = sdn.Netlist(name="long_%d" % n)
+    prims = nl.create_library(name="prims")
+    workl = nl.create_library(name="work (lib)")
+    buf = prims.create_definition(name="BUF")
+    bi = buf.create_port(name="I", direction=sdn.IN)
+    bi.create_pins(1)
+    bo = buf.create_port(name="O", direction=sdn.OUT)
+    bo.create_pins(1)
+    top = workl.create_definition(name="top of the (long) chain")
+    a = top.create_port(name="a", direction=sdn.IN)
+    a.create_pins(1)
+    y = top.create_port(name="y", direction=sdn.OUT)
+    y.create_pins(1)
+    net = top.create_cable(name="a")
+    net.create_wires(1)
+    net.wires[0].connect_pin(a.pins[0])
+    for k in range(n):
+        inst = top.create_child(name=G.blanky(rng, rng.randint(15, 60)) + " %d" % k, reference=buf)
+        inst["EDIF.properties"] = [{"identifier": "LOC", "value": G.blanky(rng, rng.randint(30, 120))},
+                                   {"identifier": "N%d" % (k % 7), "value": rng.randint(-10 ** 9, 10 ** 9)},
+                                   {"identifier": "KEEP", "value": bool(k % 2)}]
+        net.wires[0].connect_pin(inst.pins[bi.pins[0]])
+        net = top.create_cable(name="y" if k == n - 1 else G.blanky(rng, rng.randint(10, 50)) + " %d" % k)
+        net.create_wires(1)
+        net.wires[0].connect_pin(inst.pins[bo.pins[0]])
+    net.wires[0].connect_pin(y.pins[0])
+    ti = sdn.Instance(name="the top")
+    ti.reference = top
+    nl.top_instance = ti
+    return nl
+
+
+def c03_run_long(sr, work, drv, inp, full_limit=160_000):
+    """write a long netlist, read it back.  Up to `full_limit` characters the full evaluation (model writer, model reader);
+    above: the implementation's tokenizer against lexE on the written text, and P (view03 of what is read back)"""
+    sdn = _sdn()
+    nl = build_long03(inp["n"], inp["seed"])
+    sr.case(stable_hash(inp), True)
+    sr.dist("c03.long-netlist")
+    f1 = work.path()
+    v0 = G.view03(canon.cnetlist(nl))
+    try:
+        restore_policy()
+        sdn.compose(nl, f1)
+    except Exception as e:  # noqa
+        sr.spec_failure("compose.raises." + exc_family(e), inp, str(e)[:200])
+        return False
+    text1 = open(f1).read()
+    sr.dist("c03.long-netlist.kB=%d" % (10 * (len(text1) // 10_000)))
+    it = impl_tokens(text1)
+    lt = drv.ask({"fn": "lex", "text": text1})
+    if it != lt:
+        k, a, b = first_token_diff(it, lt)
+        sr.corr_mismatch("tokenizer: EdifTokenizer(compose n) = lexE(compose n) (long text)", inp, a, b)
+    if len(text1) <= full_limit:
+        res = c03_eval(work, drv, build_long03(inp["n"], inp["seed"]), None, second_pass=False)
+        for t in res["tags"]:
+            sr.dist(t if t.startswith("theorem_fragment:") else "c03." + t)
+        for (what, a, b) in res["corr"]:
+            sr.corr_mismatch(what, inp, a, b)
+        if res["spec"]:
+            sr.spec_failure(res["spec"][0], inp, res["spec"][1])
+            return False
+        return True
+    r = impl_parse_file(f1)
+    try:
+        os.unlink(f1)
+    except OSError:
+        pass
+    if r[0] != "ok":
+        sr.spec_failure("reparse.raises." + r[1], inp, r[2])
+        return False
+    d = G.first_diff03(G.view03(canon.cnetlist(r[1])), v0)
+    if d:
+        sr.spec_failure("roundtrip.view03." + d[0], inp, "first difference at " + d[1])
+        return False
+    return True
 
 
 def example_files(limit):
@@ -1054,8 +1208,12 @@ def run_input(pid, sr, work, drv, inp, tier="quick", shrink=False):
             c05_run_text(sr, work, drv, inp)
         elif kind == "file":
             c05_run_file(sr, work, drv, inp, 10 ** 9)
+        elif kind == "long":
+            c05_run_long(sr, work, drv, inp, model_limit=10 ** 9)
     else:
-        if kind == "recipe":
+        if kind == "long":
+            c03_run_long(sr, work, drv, inp)
+        elif kind == "recipe":
             c03_run_recipe(sr, work, drv, inp, shrink=shrink)
         elif kind == "design":
             text, _ = c05_design_text(inp)
@@ -1093,6 +1251,17 @@ def worker(pid, seed, shard_no, n_cases, tier, t_end, files, boost):
                 c05_run_file(sr, work, drv, {"kind": "file", "path": rel}, model_limit=(400_000 if tier == "quick" else 3_000_000))
             else:
                 c03_run_parsed(sr, work, drv, {"kind": "file", "path": rel}, path=path)
+        # long inputs (block boundaries of the reader): a fixed list per run, dealt out over the shards
+        if not boost:
+            longs = long05_inputs(seed, tier) if pid == "C05" else [
+                {"kind": "long", "n": n, "seed": int(stable_hash([seed, "long03", n, v]), 16) % (1 << 20)}
+                for n in LONG_SIZES for v in range(1 if tier == "quick" else 4)]
+            for k, linp in enumerate(longs):
+                if k % 16 == shard_no and time.time() < t_end:
+                    if pid == "C05":
+                        c05_run_long(sr, work, drv, linp)
+                    else:
+                        c03_run_long(sr, work, drv, linp)
         for i in range(n_cases):
             if time.time() > t_end:
                 sr.dist("stopped-for-time")
